@@ -34,6 +34,7 @@ import (
 	"os"
 	"path/filepath"
 	"reflect"
+	"regexp"
 	"sort"
 	"strconv"
 	"strings"
@@ -1809,6 +1810,14 @@ func (d *drv) opCreate(p createParams) {
 		for k, idx := range sets {
 			d.opCombine(ctx, dir, k, idx, lock, shares, p)
 		}
+		// the same command when the lock file of ONE of the directories was edited in a hashed field (raw edit, stored
+		// hashes kept): every position of the altered directory among those handed in
+		if len(sets) > 0 && len(sets[0]) >= p.t {
+			idx := sets[0]
+			for pos := range idx {
+				d.opCombineTampered(ctx, dir, 100+pos, idx, pos, lock, p)
+			}
+		}
 	}
 
 	// the created lock as a file: model reproduces its hashes, leaves, re-encoding, alterations
@@ -1872,6 +1881,48 @@ func (d *drv) opCombine(ctx context.Context, dir string, k int, idx []int, lock 
 		}
 	}
 	d.run.Case(fmt.Sprintf("combine:n%d:t%d:k%d:%s", len(lock.Operators), lock.Threshold, len(idx), got))
+	d.run.Op(line, got)
+}
+
+// opCombineTampered: as opCombine, but the cluster-lock.json of directory idx[pos] is a copy whose `name` (a hashed
+// definition field) was edited without touching the stored hashes. Op `combinet t=<t> shares=<k> pos=<pos>` -> refuse.
+func (d *drv) opCombineTampered(ctx context.Context, dir string, k int, idx []int, pos int, lock *cluster.Lock, p createParams) {
+	in := filepath.Join(dir, fmt.Sprintf("combine-in-%d", k))
+	out := filepath.Join(dir, fmt.Sprintf("combine-out-%d", k))
+	abs, err := filepath.Abs(dir)
+	hx.Must(err)
+	edited := false
+	for j, i := range idx {
+		nd := filepath.Join(in, fmt.Sprintf("node%d", i))
+		hx.Must(os.MkdirAll(nd, 0o755))
+		hx.Must(os.Symlink(filepath.Join(abs, fmt.Sprintf("node%d", i), "validator_keys"), filepath.Join(nd, "validator_keys")))
+		src := filepath.Join(abs, fmt.Sprintf("node%d", i), "cluster-lock.json")
+		if j != pos {
+			hx.Must(os.Symlink(src, filepath.Join(nd, "cluster-lock.json")))
+			continue
+		}
+		b, err := os.ReadFile(src)
+		hx.Must(err)
+		re := regexp.MustCompile(`("name"\s*:\s*")`)
+		if loc := re.FindIndex(b); loc != nil {
+			b = append(append(append([]byte(nil), b[:loc[1]]...), 'x'), b[loc[1]:]...)
+			edited = true
+		}
+		hx.Must(os.WriteFile(filepath.Join(nd, "cluster-lock.json"), b, 0o644))
+	}
+	line := fmt.Sprintf("combinet t=%d shares=%d pos=%d", lock.Threshold, len(idx), pos)
+	if !edited {
+		d.run.Count("combinet:no_name_field")
+		return
+	}
+	cerr := combine.Combine(ctx, in, out, true, false, "", eth2util.Network{}, combine.WithInsecureKeysForT(nil))
+	got := "refuse"
+	if cerr == nil {
+		got = "accept"
+		d.run.Violate("cluster:combine_accepts_tampered_lock", fmt.Sprintf("%s: combine on node directories %v accepted although the lock file of directory %d had its name edited (stored hashes kept)", p.line(), idx, idx[pos]))
+	}
+	d.run.Count("combinet:" + got)
+	d.run.Case(fmt.Sprintf("combinet:n%d:k%d:pos%d", len(lock.Operators), len(idx), pos))
 	d.run.Op(line, got)
 }
 
@@ -1987,7 +2038,7 @@ func (d *drv) exec(ops []string) {
 				continue
 			}
 			d.execForged(f[1], f[2], b)
-		case f[0] == "combine":
+		case f[0] == "combine" || f[0] == "combinet":
 			// produced (again) by the preceding `create` op: not executable on its own
 			continue
 		case f[0] == "create":
